@@ -58,6 +58,20 @@ def tree_hash(root: str, mods: list[str]) -> str:
     return h.hexdigest()[:20]
 
 
+def _prune(keep: str, older_than_s: float = 12 * 3600) -> None:
+    """Remove builds of other trees (scratch copies, earlier commits) that nobody has touched for half a day."""
+    import glob
+    import time
+    for d in glob.glob(os.path.join(tempfile.gettempdir(), "pyjelly-verif-mypyc-*")):
+        if d == keep or not os.path.isdir(d) or "-build-" in os.path.basename(d):
+            continue
+        try:
+            if time.time() - os.path.getmtime(os.path.join(d, MARK)) > older_than_s:
+                shutil.rmtree(d, ignore_errors=True)
+        except OSError:
+            pass
+
+
 def ensure_build(root: str) -> tuple[str | None, str]:
     """Return (build directory, note).  The directory holds a `pyjelly` package whose listed modules are compiled;
     None when a build is not possible (no mypyc, sources do not type-check, compiler missing) - the note says why."""
@@ -72,6 +86,10 @@ def ensure_build(root: str) -> tuple[str | None, str]:
     key = tree_hash(root, mods)
     base = os.path.join(tempfile.gettempdir(), f"pyjelly-verif-mypyc-{key}")
     if os.path.exists(os.path.join(base, MARK)):
+        try:
+            os.utime(os.path.join(base, MARK))     # in use: keeps _prune away
+        except OSError:
+            pass
         return base, "cached"
     lock_path = base + ".lock"
     with open(lock_path, "w") as lock:
@@ -98,6 +116,7 @@ def ensure_build(root: str) -> tuple[str | None, str]:
                     fh.write(key)
                 os.rename(work, base)
                 work = None
+                _prune(base)
             finally:
                 if work:
                     shutil.rmtree(work, ignore_errors=True)
